@@ -316,7 +316,12 @@ theorem recv_notUndef (n : Nat) (ih : Sound cfg n) (x : Ty) (b : Ty) (v : Val)
     unfold inst at hi
     simp only [Bool.and_eq_true] at hi
     simp only [Ty.w] at hw
-    have hx := ih x y v (by omega) ⟨fa, fb, wa, wb, us, H.ok⟩ h hi.2
+    simp only [Bool.or_eq_true] at h
+    have hx : inst cfg false x v = true := by
+      rcases h with h | h
+      · exact ih x y v (by omega) ⟨fa, fb, wa, wb, us, H.ok⟩ h hi.2
+      · exact ih x (.notUndef y) v (by simp [Ty.w]; omega) ⟨fa, H.fb, wa, H.wb, H.us, H.ok⟩ h
+          (by unfold inst; simp [hi.1, hi.2])
     unfold inst; simp [hi.1, hx]
   | _ =>
     simp only [Bool.and_eq_true, Bool.not_eq_true'] at h
@@ -455,15 +460,15 @@ theorem recv_array (n : Nat) (ih : Sound cfg n) (e : Ty) (r : Rng) (b : Ty) (v :
       cases hts : ts' with
       | nil =>
         subst hts
-        have hcond : ([] : List Ty).isEmpty = true ∧ decide (0 < (tupleSize [] g').hi) = true := ⟨rfl, by simp; omega⟩
         have h2 := h.2
-        rw [if_pos hcond] at h2
+        rw [if_neg hz] at h2
+        simp only [List.isEmpty_nil, if_true] at h2
         exact ih e .any x (by simp [Ty.w]; omega) ⟨fa, by unfold Ty.Frag; trivial, wa, by unfold Ty.WF; trivial, by unfold Ty.US; trivial, H.ok.elems x hx⟩ h2 (by unfold inst; rfl)
       | cons t0 ts0 =>
         have hne : ts' ≠ [] := by rw [hts]; simp
-        have hcond : ¬(ts'.isEmpty = true ∧ decide (0 < (tupleSize ts' g').hi) = true) := by rw [hts]; simp
+        have hcond : ¬(ts'.isEmpty = true) := by rw [hts]; simp
         have h2 := h.2
-        rw [if_neg hcond] at h2
+        rw [if_neg hz, if_neg hcond] at h2
         have hall := (asgAllR_iff cfg false e ts').1 h2
         have hzip : instZip cfg false ts' vs = true := by
           rcases hi.2 with h2 | h2
